@@ -21,6 +21,9 @@ def main():
         d = os.path.join(VERIF, "seeded", sid)
         meta = json.load(open(os.path.join(d, "meta.json")))
         prop = meta["property"]
+        if meta.get("no_longer_breaks"):
+            print(f"{sid:8s} {prop} skipped: {meta['no_longer_breaks'][:100]}")
+            continue
         target = tempfile.mkdtemp(prefix="hvseed_")
         try:
             for sub in ("httpcore", "scripts"):
